@@ -54,6 +54,8 @@ class SecNode:
         self.errors = []
         self.traceback_counter = 0
         self.name = name
+        # modules with earlyInit/initModule in progress (for detecting cyclic attachments)
+        self._initializing = []
 
     def add_secnode_property(self, prop, value):
         """Add SECNode property. If starting with an underscore, it is exported
@@ -75,9 +77,13 @@ class SecNode:
             return None
         if modobj._isinitialized:
             return modobj
+        if modobj in self._initializing:
+            # we come here again through the attachments of the modules being initialized
+            raise ConfigError(f'cyclic attachment involving module {modobj.name!r}')
 
         # also call earlyInit on the modules
         self.log.debug('initializing module %r', modulename)
+        self._initializing.append(modobj)
         try:
             modobj.earlyInit()
             if not modobj.earlyInitDone:
@@ -92,6 +98,8 @@ class SecNode:
                 self.log.exception(traceback.format_exc())
             self.traceback_counter += 1
             self.errors.append(f'error initializing {modulename}: {e!r}')
+        finally:
+            self._initializing.remove(modobj)
         modobj._isinitialized = True
         self.log.debug('initialized module %r', modulename)
         return modobj
